@@ -29,7 +29,7 @@ func init() {
 		ID:    "C04",
 		Level: "fault_enumeration",
 		Rule: "one wire mutation per execution of the real client+server exchange (two sessions on separate underlays, three writes per direction): position = every byte of the first M segments / datagrams of each direction (TCP: M=4 quick, 8 thorough, both connections, all kinds at every byte; UDP quick: M=3 of one session, a bit flip at every byte and the other kinds at every 6th byte; UDP thorough: M=8, all kinds at every byte), labelled by the reference decoder (nonce, encrypted metadata, metadata tag, padding, payload body, payload tag); " +
-			"kind = flip bit 0, flip bit 7, set 00, insert a byte before, delete, truncate here, swap with the next segment, replace by the same-index segment of the other session, replace by the same-index segment of the opposite direction, UDP: deliver the datagram again 1 ms / 12 ms / 40 ms / 300 ms / 2 s later, TCP: remove the whole segment, send it twice, append a copy of the connection's first segment; both transports; patterns {padding max 4, low entropy 40 with rotation}. Oracle: TCP - everything read is a prefix of what was written (the connection may end early); UDP - the stream completes intact within the horizon. distinct = distinct (scenario, position, kind)",
+			"kind = flip bit 0, flip bit 7, set 00, insert a byte before, delete, truncate here, swap with the next segment, replace by the same-index segment of the other session, replace by the same-index segment of the opposite direction, UDP: deliver the datagram again 1 ms / 12 ms / 40 ms / 300 ms / 2 s later, alter a run of 2 / 6 / 12 consecutive datagrams of one direction (header byte or last byte) starting at each position, TCP: remove the whole segment, send it twice, append a copy of the connection's first segment; both transports; patterns {padding max 4, low entropy 40 with rotation}. Oracle: TCP - everything read is a prefix of what was written (the connection may end early); UDP - the stream completes intact within the horizon (for a run of altered datagrams: whenever it does so with the same run lost outright). distinct = distinct (scenario, position, kind)",
 		Assumptions: []string{
 			"payloads are 8..40 bytes and padding maxima 4 in the quick tier so that 'every byte position' stays enumerable; thorough adds MTU-size payloads and padding 255",
 			"the mutated byte stream / datagram is what the receiving endpoint's socket returns; everything else is delivered unchanged",
@@ -226,6 +226,34 @@ func run(sc scen, m *mut, base *recording, ctl *explore.Ctl) (explore.Result, *o
 			k := key(dir, conn)
 			idx := counts[k]
 			counts[k]++
+			if strings.HasPrefix(m.kind, "burst") {
+				// a run of consecutive datagrams of this direction (all sessions) altered in the header
+				// (kind burstN-header) or in the last byte (burstN-tail), starting at datagram m.seg
+				var n int
+				var where string
+				fmt.Sscanf(m.kind, "burst%d-%s", &n, &where)
+				if dir != m.dir {
+					return nil
+				}
+				all := counts["burst/"+dir]
+				counts["burst/"+dir]++
+				if all < m.seg || all >= m.seg+n {
+					return nil
+				}
+				if where == "drop" {
+					return &simnet.Fault{Kind: simnet.Drop, Name: m.kind}
+				}
+				return &simnet.Fault{Kind: simnet.Mutate, Name: m.kind, Mut: func(b []byte) []byte {
+					i := 30
+					if where == "tail" {
+						i = len(b) - 1
+					}
+					if i < len(b) {
+						b[i] ^= 0x20
+					}
+					return b
+				}}
+			}
 			if dir != m.dir || conn != m.conn || idx != m.seg {
 				return nil
 			}
@@ -555,6 +583,37 @@ func units(tier string) []runner.Unit {
 								if u.Expired() {
 									u.NotExhaustive("budget")
 									goto done
+								}
+							}
+							if sc.udp && conn == 0 {
+								for _, bk := range []string{"burst2-header", "burst6-header", "burst12-header", "burst6-tail"} {
+									i++
+									if i%parts != part {
+										continue
+									}
+									mu := &mut{dir: dir, conn: conn, seg: si, kind: bk}
+									u.Distinct(mu.String())
+									// "discarded as if lost": the reference is the same run of datagrams lost outright; where
+									// that already keeps the streams from completing (e.g. every attempt of the handshake),
+									// the altered run need not do better
+									var n int
+									fmt.Sscanf(bk, "burst%d-", &n)
+									_, ref := run(sc, &mut{dir: dir, conn: conn, seg: si, kind: fmt.Sprintf("burst%d-drop", n)}, base.rec, explore.NewCtl(nil))
+									u.Explore(explore.Bound{}, sc.String()+" "+mu.String(), func(ctl *explore.Ctl) explore.Result {
+										r, _ := run(sc, mu, base.rec, ctl)
+										if !ref.complete {
+											var keep []explore.Violation
+											for _, x := range r.Violations {
+												if !strings.HasSuffix(x.Signature, "udp/stream-incomplete") {
+													keep = append(keep, x)
+												}
+											}
+											r.Violations = keep
+											r.Outcome = "as-lost:incomplete"
+										}
+										return r
+									})
+									labelCount["burst"]++
 								}
 							}
 							sk := segKinds
